@@ -349,6 +349,11 @@ func (l Loader) form(opcode string, f opcodesxml.Form) inst.Form {
 	//
 	case "SHA1RNDS4", "EXTRACTPS":
 		ops[0].Type = "imm2u"
+
+	// Opcodes database marks the destination of these instructions as
+	// write-only, but it is also a source operand.
+	case "AESDEC", "AESDECLAST", "PSIGNB", "PSIGNW", "PSIGND":
+		ops[len(ops)-1].Action |= inst.R
 	}
 
 	// Extract implicit operands.
